@@ -2,7 +2,9 @@
    (orso/types.py: OrsoTypes.parse 117-120, the per-type parsers 288-355, parse_decimal
    239-262, the tables 221-236 / 265-280 / 358-373), of DecimalFactory.__call__
    (orso/tools.py "class DecimalFactory") and of the cast of a column default
-   (orso/schema.py FlatColumn.__init__, "if self.default is not None and ...").  No proofs here.
+   (orso/schema.py FlatColumn.__init__, "if self.default is not None and ..."); round 2: of
+   OrsoTypes.from_name on structured type names, of FlatColumn(type=<name>) ("map literals to
+   OrsoTypes") and of sessions - sequences of these calls in one process.  No proofs here.
 
    Text is [list N] (code points), bytes are [list N] (< 256), Python integers are [Z],
    a float is its 64 IEEE-754 bits ([N]), a Decimal is sign / coefficient / exponent.
@@ -424,6 +426,47 @@ Definition to_c08 (x : pyval) : value :=
   | _ => VOther                      (* bool (type(x) is not int), Decimal, containers *)
   end.
 
+(* ------------------------------------------------------------------ type names *)
+(* A column type name as OrsoTypes.from_name reads it (orso/types.py from_name / _parse_type):
+   a member name, VARCHAR[n], BLOB[n], DECIMAL(p,s) or ARRAY<member>.  The text of the name is
+   produced by the harness from this structure (upper or lower case); the regular expressions
+   of _parse_type are not modelled. *)
+Inductive tname :=
+| TNPlain (t : otype)
+| TNVarchar (n : Z)
+| TNBlob (n : Z)
+| TNDecimal (p s : Z)
+| TNArray (et : otype).
+
+(* OrsoTypes.from_name(name) = (type, length, precision, scale, element_type); ValueError for a
+   DECIMAL outside 0 <= s <= p <= max (regenerated) and for a forbidden element type (generated
+   from the prefixes from_name rejects); the bare name ARRAY has VARCHAR elements *)
+Definition is_array (t : otype) : bool := match t with T_ARRAY => true | _ => false end.
+Definition from_name (n : tname) : res (otype * kwargs) :=
+  match n with
+  | TNPlain t => ROk (t, if is_array t then mkkw None None None (Some T_VARCHAR) else nokw)
+  | TNVarchar n => ROk (T_VARCHAR, mkkw (Some n) None None None)
+  | TNBlob n => ROk (T_BLOB, mkkw (Some n) None None None)
+  | TNDecimal p s =>
+      if (p <? 0) || (name_max_precision <? p) || (s <? 0) || (name_max_scale <? s) || (p <? s) then RErr XValue
+      else ROk (T_DECIMAL, mkkw None (Some p) (Some s) None)
+  | TNArray et => if array_element_forbidden et then RErr XValue else ROk (T_ARRAY, mkkw None None None (Some et))
+  end.
+
+Definition orelse {A} (a b : option A) : option A := match a with Some _ => a | None => b end.
+(* FlatColumn.__init__: "if self.length is None: self.length = _length" etc. - what the
+   constructor was given wins, what the name says fills the rest *)
+Definition merge_kw (k kn : kwargs) : kwargs :=
+  mkkw (orelse (kw_length k) (kw_length kn)) (orelse (kw_precision k) (kw_precision kn))
+       (orelse (kw_scale k) (kw_scale kn)) (orelse (kw_element k) (kw_element kn)).
+
+(* one operation of a session (a sequence of calls in one process) and what it returns *)
+Inductive op :=
+| OResolve (n : tname)                                   (* OrsoTypes.from_name(name) *)
+| ODeclare (n : tname) (k : kwargs) (x : pyval)          (* FlatColumn(type=name, **k, default=x).default *)
+| OCast (col : bool) (t : otype) (k : kwargs) (x : pyval). (* FlatColumn(type=t, **k, default=x).default / t.parse(x, **k) *)
+Inductive outcome := OutName (r : res (otype * kwargs)) | OutVal (r : res pyval).
+
 (* ------------------------------------------------------------------ the parsers *)
 Section Parse.
 Variable float_of_text : list N -> res N.        (* float(s), s a str *)
@@ -606,6 +649,25 @@ Definition column_default (t : otype) (k : kwargs) (x : pyval) : res pyval :=
          else match parse t (column_kwargs t k) x with ROk r => ROk r | RErr _ => RErr XValue end
   end.
 
+(* FlatColumn(type=<name>, **k, default=x).default: the name is resolved (its ValueError
+   leaves the constructor), the parameters it carries fill those the constructor was not
+   given, and the default is cast as for any typed column *)
+Definition column_named (n : tname) (k : kwargs) (x : pyval) : res pyval :=
+  match from_name n with
+  | RErr _ => RErr XValue
+  | ROk (t, kn) => column_default t (merge_kw k kn) x
+  end.
+
+(* A session.  Every operation is a function of its own arguments: nothing is carried from
+   one operation to the next (no state), so a session is the map of its operations. *)
+Definition run_op (o : op) : outcome :=
+  match o with
+  | OResolve n => OutName (from_name n)
+  | ODeclare n k x => OutVal (column_named n k x)
+  | OCast col t k x => OutVal (if col then column_default t k x else parse t k x)
+  end.
+Definition run_session (l : list op) : list outcome := map run_op l.
+
 End Parse.
 
 (* ------------------------------------------------------------------ specification side *)
@@ -667,6 +729,26 @@ Definition c07_check_str (c : pyval * otab * res (list N)) : bool :=
   | _, _ => false
   end.
 Definition c07_show_str (c : pyval * otab * res (list N)) := let '(v, o, _) := c in str_with o v.
+
+(* a session case: the operations in order, the union of their oracle tables, the observed outcomes *)
+Definition kwargs_eqb (a b : kwargs) : bool :=
+  let oz (x y : option Z) := match x, y with Some p, Some q => p =? q | None, None => true | _, _ => false end in
+  oz (kw_length a) (kw_length b) && oz (kw_precision a) (kw_precision b) && oz (kw_scale a) (kw_scale b)
+  && match kw_element a, kw_element b with Some p, Some q => otype_eqb p q | None, None => true | _, _ => false end.
+Definition outcome_eqb (a b : outcome) : bool :=
+  match a, b with
+  | OutVal x, OutVal y => res_eqb x y
+  | OutName (ROk (t, k)), OutName (ROk (t', k')) => otype_eqb t t' && kwargs_eqb k k'
+  | OutName (RErr e), OutName (RErr f) => xn_eqb e f
+  | _, _ => false
+  end.
+Fixpoint outcomes_eqb (a b : list outcome) : bool :=
+  match a, b with [], [] => true | x :: r, y :: s => outcome_eqb x y && outcomes_eqb r s | _, _ => false end.
+Definition session_with (o : otab) := run_session (o_ftext o) (o_fbytes o) (o_repr o) (o_loads o) (o_dumps o) (o_strc o).
+Definition session_case := (list op * otab * list outcome)%type.
+Definition c07_check_session (c : session_case) : bool :=
+  let '(ops, o, obs) := c in outcomes_eqb (session_with o ops) obs.
+Definition c07_show_session (c : session_case) := let '(ops, o, _) := c in session_with o ops.
 
 (* compact literals for the generated files *)
 Definition kw (l p s : option Z) (e : option otype) : kwargs := mkkw l p s e.
